@@ -5,9 +5,9 @@
    (shape, initializer); the invariants compare the implementation model (NewInit) with the
    pointwise ideal (NewInitIdeal).                                                          *)
 EXTENDS NewInit, TLC
-CONSTANTS Variant, Depth, KMax, Pool, ShapeNames
-VARIABLES shape, init
-vars == <<shape, init>>
+CONSTANTS Variant, Depth, KMax, Pool, ShapeNames, Combos
+VARIABLES shape, init, mode, innerFirst
+vars == <<shape, init, mode, innerFirst>>
 
 U8  == [k |-> "prim", size |-> 1, chr |-> 1, ischar |-> 0]       \* unsigned char
 U16 == [k |-> "prim", size |-> 2, chr |-> 0, ischar |-> 0]       \* unsigned short
@@ -31,6 +31,7 @@ Shapes ==
     S5  |-> [t |-> S5, isptr |-> TRUE],
     S5w |-> [t |-> St(2, <<F("n", 0, U8), F("w", 2, Arr(C16, 0 - 1))>>), isptr |-> TRUE],
     S6  |-> [t |-> St(2, <<F("k", 0, U8), F("inner", 1, S5)>>), isptr |-> TRUE],
+    S8  |-> [t |-> St(3, <<F("j", 0, U8), F("mid", 1, St(2, <<F("k", 0, U8), F("inner", 1, S5)>>))>>), isptr |-> TRUE],
     S7  |-> [t |-> St(6, <<F("a", 0, U8), F("p", 2, U8), FI("q", 2, U16), F("z", 4, U8)>>), isptr |-> TRUE],
     UN  |-> [t |-> UN, isptr |-> TRUE],
     A1  |-> [t |-> Arr(U8, 3), isptr |-> FALSE],
@@ -89,25 +90,39 @@ Inits(T, d) ==
              copy == IF WithVar(T) THEN {} ELSE {Mk("copy", [i \in 1..T.size |-> 32 + i], <<>>, 0)}
          IN seqs \cup one \cup two \cup copy \cup {Mk("dict", <<>>, <<>>, 0)}
 
+\* how the type came to exist matters only for a struct with a nested var-sized struct
+HasNestedVar(X) == X.k = "struct" /\ \E i \in 1..Len(X.fields) : WithVar(X.fields[i].t)
+\* The choice is made in two steps (shape, then initializer) only so that TLC's workers share the work:
+\* initial states are generated and checked by a single thread.
+ComboSet == IF Combos = "all" THEN {"abi", "api"} \X BOOLEAN ELSE {<<"abi", TRUE>>, <<"api", FALSE>>}
+Pending == Mk("pending", <<>>, <<>>, 0)
+Init == shape = "none" /\ init = Pending /\ mode = "abi" /\ innerFirst = TRUE
+ChooseShape == /\ shape = "none" /\ shape' \in ShapeNames /\ UNCHANGED <<init, mode, innerFirst>>
+ChooseInit  == /\ shape # "none" /\ init = Pending /\ UNCHANGED shape
+               /\ init' \in (IF IsOpen(Shapes[shape].t) THEN {} ELSE {None}) \cup Inits(Shapes[shape].t, Depth)
+               /\ IF HasNestedVar(Shapes[shape].t) THEN \E cb \in ComboSet : mode' = cb[1] /\ innerFirst' = cb[2]
+                                                   ELSE mode' = "abi" /\ innerFirst' = TRUE
+Next == ChooseShape \/ ChooseInit
+Spec == Init /\ [][Next]_vars
+Chosen == shape # "none" /\ init # Pending
+
 T     == Shapes[shape].t
 IsPtr == Shapes[shape].isptr
-Init == /\ shape \in ShapeNames
-        /\ init \in (IF IsOpen(Shapes[shape].t) THEN {} ELSE {None}) \cup Inits(Shapes[shape].t, Depth)
-Next == UNCHANGED vars
-Spec == Init /\ [][Next]_vars
-
-R == DirectNewp(Variant, T, init, IsPtr)
+Flag == VarFlag(Variant, T, mode, innerFirst)
+R == DirectNewpF(Variant, T, init, IsPtr, Flag)
 Base == IF T.k = "prim" /\ T.ischar = 1 THEN 2 * T.size ELSE IF T.size >= 0 THEN T.size ELSE 0
 
 \* ---- generator sanity and UTF-free lemmas of the ideal
-WellFormed      == WF(T, init)
-ClaimsDisjoint  == NoOverlap(Claims(T, 0, init))
+WellFormed      == Chosen => WF(T, init)
+ClaimsDisjoint  == Chosen => NoOverlap(Claims(T, 0, init))
+\* the flag the type system computes is the structural fact "contains an open array, anywhere"
+FlagIsStructural == Chosen => Flag = WithVar(T)
 \* ---- the model against the clauses of the property
-Accepts         == R.err = ""
-NoOverflow      == ~R.ovf
-Fits            == FitsG(T, init, R.size)
-AllocExact      == R.size = Max2(Base, Extent(T, init))
-BytesAsIdeal    == BytesG(T, init, R.size, R.mem)
-LawNewAssign    == init.k # "none" /\ ~(IsOpen(T) /\ init.k = "len")
+Accepts         == Chosen => R.err = ""
+NoOverflow      == Chosen => ~R.ovf
+Fits            == Chosen => FitsG(T, init, R.size)
+AllocExact      == Chosen => R.size = Max2(Base, Extent(T, init))
+BytesAsIdeal    == Chosen => BytesG(T, init, R.size, R.mem)
+LawNewAssign    == Chosen /\ init.k # "none" /\ ~(IsOpen(T) /\ init.k = "len")
                      => LET a == NewThenAssign(Variant, T, init, R.size) IN a.err = "" /\ LawG(R.mem, a.mem)
 =============================================================================
